@@ -164,7 +164,7 @@ class SignalBuffer:
     def _invalidate(self, i):
         # This is only called by invalidate or invalidate_samples, which are
         # already wrapped inside a lock block.
-        if i <= 0:
+        if i <= self._ilb:
             self._buffer[:] = self._fill_value
             self._ilb = self._buffer_samples
         else:
